@@ -623,6 +623,9 @@ class Read(Relation):
     name = 'C11.read'
     examples = {'quick': 300, 'thorough': 4000}
     shards = {'quick': 8, 'thorough': 16}
+    # coverage-guided tier (vf/guided.py): (shards, libFuzzer runs per shard)
+    guided = {'quick': (2, 1000), 'thorough': (16, 15000)}
+    guided_modules = ['regions.io', 'regions.core.metadata']
 
     def strategy(self, tier):
         return crtf_file(6 if tier == 'quick' else 20)
